@@ -107,6 +107,15 @@ structure St where
   maxOverride : Option Nat := none
   deriving Repr, DecidableEq, Inhabited
 
+/-- the state of the `context.Context` a call is made with -/
+inductive Ctx
+  | live
+  /-- already cancelled when the call is made -/
+  | cancelled
+  /-- deadline in the past when the call is made -/
+  | expired
+  deriving Repr, DecidableEq, Inhabited
+
 inductive Op
   /-- `Sequencer.SubmitBatchTxs` -/
   | submit (id : Bytes) (b : Batch)
@@ -129,6 +138,10 @@ inductive Op
   | restartMax (max : Nat)
   /-- arm the datastore's fault injection: the next `put` single Puts and the next `del` single Deletes fail -/
   | fail (put del : Nat)
+  /-- `Sequencer.SubmitBatchTxs` called with a context in state `c` -/
+  | submitCtx (c : Ctx) (id : Bytes) (b : Batch)
+  /-- `Sequencer.GetNextBatch` called with a context in state `c` -/
+  | nextCtx (c : Ctx) (id : Bytes)
   deriving Repr, DecidableEq, Inhabited
 
 inductive Out
@@ -227,6 +240,9 @@ def step (cfg : Cfg) (s : St) : Op → St × Out
   | .load => (reload s, .restarted)
   | .restartMax n => (reload { s with maxOverride := some n }, .restarted)
   | .fail p d => ({ s with failPut := p, failDel := d }, .restarted)
+  -- neither the sequencer nor the queue looks at the context (it is only passed on to the datastore)
+  | .submitCtx _ id b => submitF key cfg s id b
+  | .nextCtx _ id => getNextF key cfg s id
 
 /-- the state of the process right after the operation's effect and *before* it stops: for the
 operations that restart (`restart`, `load`, the crashes) this is the state whose durable part is then
@@ -244,6 +260,8 @@ def stepCore (cfg : Cfg) (s : St) : Op → St
   | .load => s
   | .restartMax n => { s with maxOverride := some n }
   | .fail p d => { s with failPut := p, failDel := d }
+  | .submitCtx _ id b => (submitF key cfg s id b).1
+  | .nextCtx _ id => (getNextF key cfg s id).1
 
 /-! ## ghost history: what has been accepted / removed / handed out / lost so far -/
 
@@ -252,6 +270,7 @@ def acceptedBy : Op → Out → List Batch
   | .submit _ b, .ok => [b]
   | .crashSubmit true _ b, .ok => [b]
   | .add b, .ok => [b]
+  | .submitCtx _ _ b, .ok => [b]
   | _, _ => []
 
 /-- batches removed from the queue by this step: popped from memory and the write-ahead record deleted
@@ -260,6 +279,7 @@ def removedBy : Op → Out → List Batch
   | .next _, .batch b => [b]
   | .crashNext true _, .batch b => [b]
   | .qnext, .batch b => [b]
+  | .nextCtx _ _, .batch b => [b]
   | _, _ => []
 
 /-- batches handed out by this step: **returned to the caller**.  A call that died between its durable
@@ -267,6 +287,7 @@ def removedBy : Op → Out → List Batch
 def deliveredBy : Op → Out → List Batch
   | .next _, .batch b => [b]
   | .qnext, .batch b => [b]
+  | .nextCtx _ _, .batch b => [b]
   | _, _ => []
 
 /-- batches lost by this step: removed from the queue (record deleted, durable) by a call that died
@@ -303,7 +324,7 @@ end
 
 /-- no restart, crash or reload in this operation -/
 def Op.plain : Op → Bool
-  | .submit .. | .next .. | .add .. | .qnext => true
+  | .submit .. | .next .. | .add .. | .qnext | .submitCtx .. | .nextCtx .. => true
   | _ => false
 
 /-- the operation stops the process and reloads the queue from the datastore -/
@@ -323,7 +344,7 @@ def Op.changesBound : Op → Bool
 
 /-- an operation within one process lifetime: a call, or the arming of datastore faults -/
 def Op.lifetime : Op → Bool
-  | .submit .. | .next .. | .add .. | .qnext | .fail .. => true
+  | .submit .. | .next .. | .add .. | .qnext | .fail .. | .submitCtx .. | .nextCtx .. => true
   | _ => false
 
 /-- the process dies between the durable `Delete` of `Next` and its return -/
@@ -345,6 +366,12 @@ def astep (cfg : Cfg) (q : List Batch) : Op → List Batch × Out
     if id ≠ cfg.id then (q, .errId) else
     match q with | [] => (q, .empty) | b :: r => (r, .batch b)
   | .qnext => match q with | [] => (q, .empty) | b :: r => (r, .batch b)
+  | .submitCtx _ id b =>
+    if id ≠ cfg.id then (q, .errId) else if b.isEmpty then (q, .skipEmpty)
+    else if afull cfg q then (q, .errFull) else (q ++ [b], .ok)
+  | .nextCtx _ id =>
+    if id ≠ cfg.id then (q, .errId) else
+    match q with | [] => (q, .empty) | b :: r => (r, .batch b)
   | _ => (q, .restarted)
 
 def arun (cfg : Cfg) : List Batch → List Op → List Batch × List Out
